@@ -181,6 +181,14 @@ func main() {
 		os.RemoveAll(tmp)
 		os.Exit(2)
 	}
+	// The known parity defect hits about 1 key in 20000. A parity error that is frequent is a different
+	// defect and must not hide behind the known class pubkey-parity/*.
+	if h, n := run.Get("lib/pubkey_parity_hits"), run.Get("lib/pubkey_checks"); h > 3 && h*500 > n {
+		run.Violation("pubkey-parity-systematic/library", fmt.Sprintf("%d of %d compressed public keys have the wrong parity prefix (far above the known 1/20000 rate)", h, n), map[string]interface{}{"hits": h, "checks": n})
+	}
+	if a := run.Get("wallet/listing_aborted_by_parity"); a > 2 && a*10 > int64(nsc) {
+		run.Violation("pubkey-parity-systematic/wallet", fmt.Sprintf("%d of %d wallet scenarios abort listing because of wrong public key parity", a, nsc), map[string]interface{}{"aborted": a, "scenarios": nsc})
+	}
 	// evaluations = wallet keys checked + library derivation steps
 	run.Count("evaluations", run.Get("wallet/keys_checked")+run.Get("lib/hd_steps"))
 	for _, k := range []string{"wallet/keys_checked", "lib/hd_steps", "lib/bip39_entropy_cases", "wallet/scenarios_checked"} {
@@ -839,6 +847,7 @@ func runScenario(bin, dir string, sc *scenario) (o scOutcome) {
 				viol("pubkey-parity/wallet-aborts-listing", "the wallet cannot list its keys: a compressed public key gets the wrong 02/03 prefix and the wallet's own VerifyKeyPair aborts",
 					map[string]interface{}{"index": i, "private_key": hex.EncodeToString(exp.keys[i].priv), "gocoin_pubkey": hex.EncodeToString(g), "model_pubkey": hex.EncodeToString(exp.keys[i].pub), "stderr": vlib.Tail([]byte(outs[0].stderr), 600)})
 				o.counts["keys_checked"] += int64(i)
+				o.counts["listing_aborted_by_parity"]++
 				return
 			}
 		}
@@ -995,6 +1004,28 @@ func runScenario(bin, dir string, sc *scenario) (o scOutcome) {
 		viol(cls, "the '# Root/Prnt/Leaf' extended public keys (or notes) in wallet.txt differ from the model", map[string]interface{}{"wallet": hdr, "model": exp.xtra})
 	} else {
 		o.counts["xpub_lines_checked"] += int64(len(hdr))
+	}
+
+	// --- run 3b: the wallet's own address -> key lookup (what signing uses): -dump <listed address>
+	if firstKeyMismatch < 0 && sc.AType != "pks" && len(rows) > 0 {
+		i := int(sc.ID*7+len(sc.Pass)) % len(rows)
+		one := runWallet(bin, d0, append(append([]string{}, args...), "-dump", rows[i].addr), stdin)
+		o.counts["process_runs"]++
+		enc, pubhex := "", ""
+		for _, ln := range strings.Split(one.stdout, "\n") {
+			if strings.HasPrefix(ln, "Private encoded: ") {
+				enc = strings.TrimSpace(ln[len("Private encoded: "):])
+			}
+			if strings.HasPrefix(ln, "Public hexdump: ") {
+				pubhex = strings.TrimSpace(ln[len("Public hexdump: "):])
+			}
+		}
+		if one.exit != 0 || enc != dumps[i].wif || pubhex != hex.EncodeToString(exp.keys[i].pub) {
+			viol("address-lookup/"+sc.AType+"/"+netName(sc), "looking up a listed address (-dump <address>) does not return the key listed at that position",
+				map[string]interface{}{"index": i, "address": rows[i].addr, "wallet_wif": enc, "expected_wif": dumps[i].wif, "wallet_pub": pubhex, "stdout": vlib.Tail([]byte(one.stdout), 600), "stderr": vlib.Tail([]byte(one.stderr), 400)})
+		} else {
+			o.counts["address_lookups_checked"]++
+		}
 	}
 
 	// --- run 4: -xprv / -words
